@@ -106,15 +106,21 @@ impl DataLog {
         id: ConnectionId,
         filter: &Filter,
     ) -> Option<DataRequest> {
+        // a shared subscription `$share/<group>/<path>` is parked in the log of `<path>`,
+        // next to the connection's plain subscription on `<path>` if it has one
+        let log_filter = filter
+            .strip_prefix("$share/")
+            .and_then(|s| s.split_once('/'))
+            .map_or(filter.as_str(), |(_, path)| path);
         let data = self
             .native
-            .get_mut(*self.filter_indexes.get(filter)?)
+            .get_mut(*self.filter_indexes.get(log_filter)?)
             .unwrap();
         let waiters = data.waiters.get_mut();
 
         waiters
             .iter()
-            .position(|&(conn_id, _)| conn_id == id)
+            .position(|(conn_id, req)| *conn_id == id && req.filter == *filter)
             .and_then(|index| {
                 waiters
                     .swap_remove_back(index)
